@@ -17,7 +17,7 @@ FUNCTIONS = ["solvor.cg.solve_cg / _solve_cutting_stock / _solve_custom / _solve
              "_solve_bounded_master_lp / _round_solution / _most_fractional / _build_solution", "solvor.utils.pricing.knapsack_pricing / simplex_phase"]
 BOUNDS = {
     "quick": "solve_cg: roll widths 6..10 with 1-3 piece sizes (14 instances), demands symbolic Ints in 0..8, plus 6 instances with 4 piece types (demands 0..4); custom pricing over 6 explicit column pools; the restricted master LP alone on 60 seeded column sets for every demand vector in 0..6. "
-             "solve_bp: 5 instances with 2-3 piece types, every demand vector with entries 0..3 (solver-enumerated), plus custom pools",
+             "early stop through on_progress (1st/2nd report) and tight limits (max_iter 0..2, max_nodes 1..2) on a subset of all of these. solve_bp: 5 instances with 2-3 piece types, every demand vector with entries 0..3 (solver-enumerated), plus custom pools",
     "thorough": "widths up to 12, demands 0..16 (cg) and 0..6 (bp), 40 instances",
 }
 OUTSIDE = "larger widths / more piece types / larger demands; non-integer sizes; float rounding inside the tableau (body entries are native doubles)"
